@@ -6,6 +6,7 @@ import (
 	"fmt"
 	"go/token"
 	"os"
+	"sync/atomic"
 	"sort"
 	"strings"
 	"time"
@@ -113,6 +114,7 @@ type Engine struct {
 	fmtDeps             map[string][]*Term
 	hints               map[*Term][2]uint64
 	jsonNames           map[string]string
+	stop                atomic.Bool
 	mergeLoss           bool // the last merge turned concrete lengths into symbolic ones
 	arrSyms             map[string]*ArrSym
 	prefer              []*Term
@@ -561,7 +563,7 @@ func (e *Engine) safeStep(fr *Frame, st *State) (res stepResult, endReason strin
 
 func (e *Engine) runPath(fr *Frame, st *State, stack *[]work) (Outcome, bool) {
 	for {
-		if !e.cfg.Deadline.IsZero() && st.steps%256 == 0 && time.Now().After(e.cfg.Deadline) {
+		if e.stop.Load() {
 			e.rep.PathBudgetHit = true
 			e.note("deadline reached: exploration truncated")
 			return Outcome{}, false
@@ -651,6 +653,10 @@ func (e *Engine) RunHarness(fn *ssa.Function, caseIdx int) *HarnessReport {
 	e.rep = rep
 	if fn.Pkg != nil {
 		rep.Pkg = fn.Pkg.Pkg.Path()
+	}
+	if !e.cfg.Deadline.IsZero() {
+		t := time.AfterFunc(time.Until(e.cfg.Deadline), func() { e.stop.Store(true) })
+		defer t.Stop()
 	}
 	st := &State{mem: newMem(), ghost: map[string]Value{}}
 	e.initGlobals(st)
